@@ -7,6 +7,7 @@ from .decorators import load_decorators
 from . import rules_keymaps as K
 from . import rules_rounding as RR
 from . import rules_cache as S
+from . import rules_archives as A
 
 TECH = 'static analysis: exhaustive path enumeration with typed exception edges over the decorator closures (ast), def-use normal forms, who-may-call rules'
 
@@ -211,9 +212,86 @@ def check_C08(ctx, tier):
             'typestate reachable set and all (state, operation) transitions equal the toggle algebra; the null archive discards writes.')
 
 
+ATECH = 'static analysis: interprocedural storage-effect enumeration over the archive classes (ast path enumeration, both arms of every conditional class), override exhaustiveness, abstract strings for staging names, must-pass-through commit/publish ordering'
+
+
+def check_C03(ctx, tier):
+    cache = A.Cache(ctx.repo)
+    A.rule_A_OVR_BASE(ctx, ctx.repo, cache)
+    A.rule_A_EFF(ctx, ctx.repo, cache)
+    A.rule_A_KEYERR(ctx, ctx.repo, cache)
+    A.rule_A_VIS_STAGE(ctx, ctx.repo, cache)
+    S.rule_S_PLAIN_EFF(ctx, ctx.repo)
+    S.rule_S_NULL(ctx, ctx.repo)
+    ctx.tables['primitives'] = A.PRIMITIVES
+    ctx.assume('returned values and defaults, key aliasing through the key->file-name map, encoder round trips and copy independence are value-level and not decided')
+    return ('Every archive class whose contents live outside the base dict overrides every dict operation and never touches base storage; '
+            'per-method storage effects match the dict specification (readers never write and always reach a read, writers/removers/clear reach '
+            'their effect); getitem/delitem/pop/popitem can raise KeyError; a failed store cannot leave a visible staging entry.')
+
+
+def check_C04(ctx, tier):
+    cache = A.Cache(ctx.repo)
+    A.rule_A_NOCACHE(ctx, ctx.repo, cache)
+    A.rule_A_EFF(ctx, ctx.repo, cache, must_read_only=True)
+    A.rule_A_COMMIT(ctx, ctx.repo, cache)
+    A.rule_A_RED_COPY(ctx, ctx.repo, cache)
+    A.rule_A_FACTORY_OPEN(ctx, ctx.repo, cache)
+    ctx.tables['primitives'] = A.PRIMITIVES
+    ctx.assume('equality of decoded values, original key types under json and stale .pyc reuse of the import-based reader are not decided')
+    return ('No persistent archive method outside __init__/__drop__ assigns instance state (no handle-local content cache); every reader '
+            'reaches a storage read on every normal path; every SQL DML is followed by commit on every path; __reduce__ / copy / the '
+            'factories rebuild the same class on the same location with the same settings.')
+
+
+def check_C13(ctx, tier):
+    cache = A.Cache(ctx.repo)
+    A.rule_A_PUB(ctx, ctx.repo, cache)
+    A.rule_A_UNPUB(ctx, ctx.repo, cache)
+    A.rule_A_VIS_STAGE(ctx, ctx.repo, cache)
+    A.rule_A_FACTORY_OPEN(ctx, ctx.repo, cache, open_only=True)
+    A.rule_A_COMMIT(ctx, ctx.repo, cache)
+    ctx.tables['primitives'] = A.PRIMITIVES
+    ctx.assume('torn writes inside a single write(), fsync and power loss are not decided; crash points themselves are not enumerated - only '
+               'structural necessary conditions of the temp-then-move protocols are')
+    return ('Necessary conditions of crash atomicity: the live object is never unlinked before the staging copy is renamed over it; entry '
+            'removal is not an in-place recursive delete; the staging name cannot match the lister pattern; visible staging objects are '
+            'published or removed on every exit; opening an existing archive performs no write; every SQL DML is committed on every path.')
+
+
+def check_C14(ctx, tier):
+    cache = A.Cache(ctx.repo)
+    A.rule_A_PUB(ctx, ctx.repo, cache)
+    A.rule_A_VIS_STAGE(ctx, ctx.repo, cache)
+    A.rule_A_FACTORY_OPEN(ctx, ctx.repo, cache, open_only=True)
+    A.rule_A_COMMIT(ctx, ctx.repo, cache)
+    A.rule_A_LISTREAD(ctx, ctx.repo, cache)
+    A.rule_A_UNPUB(ctx, ctx.repo, cache)
+    ctx.tables['primitives'] = A.PRIMITIVES
+    ctx.assume('the interleavings themselves are not enumerated; only what a concurrent process could observe through the structure of the protocols')
+    return ('Necessary conditions for concurrent processes: readers see a complete old or new object (publish by rename without prior unlink), '
+            'no phantom keys (staging invisible to the lister), an opener cannot undo a completed write (no write on open), SQL writes are '
+            'committed, bulk reads tolerate a key disappearing between listing and reading.')
+
+
+def check_C20(ctx, tier):
+    cache = A.Cache(ctx.repo)
+    for d, paths in _wrappers(ctx, tier):
+        W.setup_abbrev(d)
+        W.rule_W_RED(ctx, d)
+        W.rule_W_LOCAL(ctx, d)
+    RR.rule_R_NONE(ctx, ctx.repo)
+    A.rule_A_RED_COPY(ctx, ctx.repo, cache)
+    ctx.require_instances('W-RED', 12, 'decorator __reduce__ methods')
+    ctx.assume("dill's by-value closure pickling and lock-step equality of the clone are not decided")
+    return ('Each decorator\'s __reduce__ rebuilds the class from __state__ with every __init__ parameter in its own position (or the '
+            'constant the class pins it to); the rounding decorators and the archives likewise; every mutable object a wrapper touches '
+            'is a closure cell or reachable from __state__ (no module-level mutable state), so pickling the closure by value carries all of it.')
+
+
 CHECKS = {
-    'C01': check_C01, 'C02': check_C02, 'C05': check_C05, 'C06': check_C06, 'C07': check_C07,
-    'C08': check_C08, 'C09': check_C09, 'C10': check_C10, 'C17': check_C17, 'C12': check_C12, 'C15': check_C15, 'C16': check_C16, 'C18': check_C18,
+    'C01': check_C01, 'C02': check_C02, 'C03': check_C03, 'C04': check_C04, 'C13': check_C13, 'C14': check_C14, 'C05': check_C05, 'C06': check_C06, 'C07': check_C07,
+    'C08': check_C08, 'C09': check_C09, 'C10': check_C10, 'C17': check_C17, 'C12': check_C12, 'C15': check_C15, 'C16': check_C16, 'C18': check_C18, 'C20': check_C20,
 }
 
 
@@ -226,4 +304,4 @@ def run(prop, tier='quick', repo_root=None):
                   'Static analysis of /repo source (ast only, nothing imported or executed). ' + rule_text +
                   ' evaluations = enumerated paths + rule obligations; distinct_nontrivial = distinct event paths with at least one role '
                   'event beyond key generation/branching plus distinct rule instances.',
-                  TECH)
+                  ATECH if prop in ('C03', 'C04', 'C13', 'C14') else TECH)
